@@ -313,7 +313,7 @@ def instances(tier, seed):
     k = 0
     for name in sorted(table):
         kind, obj, npar = table[name]
-        nq = obj.num_qubits if kind == "const" else obj().num_qubits
+        nq = obj.num_qubits if kind == "const" else obj(*[sympy.Symbol(f"probe{i}") for i in range(npar)]).num_qubits
         for rep in range(1 if tier == "quick" else 4):
             ns = namesets[(k + rep) % len(namesets)]
             params = [_prm(EXPR_SHAPES[(k + j + 3 * rep) % len(EXPR_SHAPES)], ns if ns != "same_base" else "plain", j) for j in range(npar)]
